@@ -361,8 +361,13 @@ fn oracle(p: &Plan, o: &Outcome, master: &ConfigState) -> Vec<Violation> {
 impl Property for C08 {
     fn id(&self) -> &'static str { "C08" }
     fn runs(&self, tier: Tier) -> u64 { match tier { Tier::Quick => 12000, Tier::Thorough => 300000 } }
-    fn gen_plan(&self, seed: u64, tier: Tier) -> Value { serde_json::to_value(generate(seed, tier)).unwrap() }
+    fn gen_plan(&self, seed: u64, tier: Tier) -> Value {
+        // one plan in forty: an activation refused because the address is taken, then a retry (c08_bind.rs)
+        if Prng::derive(seed, "c08/bind-family").below(40) == 0 { return serde_json::json!({"bind_conflict": super::c08_bind::generate(seed, tier)}); }
+        serde_json::to_value(generate(seed, tier)).unwrap()
+    }
     fn run_plan(&self, plan: &Value) -> RunReport {
+        if let Some(b) = plan.get("bind_conflict") { return match serde_json::from_value::<super::c08_bind::BindPlan>(b.clone()) { Ok(p) => super::c08_bind::run(&p), Err(e) => RunReport { harness_error: Some(format!("bad plan: {e}")), ..Default::default() } }; }
         let p: Plan = match serde_json::from_value(plan.clone()) { Ok(p) => p, Err(e) => return RunReport { harness_error: Some(format!("bad plan: {e}")), ..Default::default() } };
         let (o, master, forwarded) = run(&p);
         let violations = oracle(&p, &o, &master);
@@ -380,6 +385,7 @@ impl Property for C08 {
         rep
     }
     fn shrink(&self, plan: &Value) -> Vec<Value> {
+        if let Some(b) = plan.get("bind_conflict") { return serde_json::from_value::<super::c08_bind::BindPlan>(b.clone()).map(|p| super::c08_bind::shrink(&p).into_iter().map(|q| serde_json::json!({"bind_conflict": q})).collect()).unwrap_or_default(); }
         let Ok(p) = serde_json::from_value::<Plan>(plan.clone()) else { return vec![] };
         let mut out = Vec::new();
         for ops in cfggen::shrink_ops(&p.ops) { let mut q = p.clone(); q.ops = ops; out.push(serde_json::to_value(q).unwrap()); }
